@@ -104,9 +104,10 @@ structure AdvT (s s' : St) (new : List BLine) (n : Nat) : Prop where
   ifs : s'.ifs = s.ifs
   fcnt : s.forCounter ≤ s'.forCounter
   icnt : s.ifCounter ≤ s'.ifCounter
+  env : EnvExt s s'
 
 theorem Adv.toT {s s' : St} {new : List BLine} {n : Nat} (h : Adv s s' new n) : AdvT s s' new n :=
-  ⟨h.code, h.cnt, h.funcs, h.fcode, h.fors, h.ends, h.ifs, by rw [h.fcnt]; exact Nat.le_refl _, by rw [h.icnt]; exact Nat.le_refl _⟩
+  ⟨h.code, h.cnt, h.funcs, h.fcode, h.fors, h.ends, h.ifs, by rw [h.fcnt]; exact Nat.le_refl _, by rw [h.icnt]; exact Nat.le_refl _, h.env⟩
 
 theorem AdvT.refl (s : St) : AdvT s s [] 0 := (Adv.refl s).toT
 
@@ -114,7 +115,7 @@ theorem AdvT.trans {s s1 s2 : St} {a b : List BLine} {m n : Nat} (h1 : AdvT s s1
     AdvT s s2 (b ++ a) (m + n) :=
   ⟨by rw [h2.code, h1.code, List.append_assoc], by rw [h2.cnt, h1.cnt, Nat.add_assoc], by rw [h2.funcs, h1.funcs],
    by rw [h2.fcode, h1.fcode], by rw [h2.fors, h1.fors], by rw [h2.ends, h1.ends], by rw [h2.ifs, h1.ifs],
-   Nat.le_trans h1.fcnt h2.fcnt, Nat.le_trans h1.icnt h2.icnt⟩
+   Nat.le_trans h1.fcnt h2.fcnt, Nat.le_trans h1.icnt h2.icnt, h1.env.trans h2.env⟩
 
 theorem AdvT.funcs_nil {s s' : St} {a : List BLine} {n : Nat} (h : AdvT s s' a n) (h0 : s.funcs = []) : s'.funcs = [] := by
   rw [h.funcs]; exact h0
@@ -437,6 +438,7 @@ structure Rest (s s' : St) : Prop where
   fors : s'.fors = s.fors
   ends : s'.endLabels = s.endLabels
   fcnt : s'.forCounter = s.forCounter
+  env : EnvExt s s'
 
 def ifLabel (n : Nat) : String := s!"_i{n}"
 
@@ -445,34 +447,34 @@ theorem ifStartOp_ok {c : String} {s s' : St} {u : Unit} (h0 : s.funcs = []) (h 
       s'.ifCounter = s.ifCounter + 1 ∧ Rest s s' := by
   simp [ifStartOp, bind, Tr.modify, addLine, h0] at h
   rw [← h]
-  exact ⟨rfl, rfl, rfl, ⟨rfl, h0.symm, rfl, rfl, rfl, rfl⟩⟩
+  exact ⟨rfl, rfl, rfl, ⟨rfl, h0.symm, rfl, rfl, rfl, rfl, EnvExt.of_eq rfl rfl rfl rfl rfl rfl rfl rfl rfl rfl⟩⟩
 
 theorem elseIfStartOp_ok {c l : String} {r : List String} {s s' : St} {u : Unit} (h0 : s.funcs = []) (hi : s.ifs = l :: r)
     (h : elseIfStartOp c s = .ok (u, s')) :
     s'.globalCode = .elseIfOpen (ifStartLine c) :: .cgoto l :: s.globalCode ∧ s'.ifs = s.ifs ∧ s'.ifCounter = s.ifCounter ∧ Rest s s' := by
   simp [elseIfStartOp, currentIf, hi, bind, addLine, h0] at h
   rw [← h]
-  exact ⟨rfl, by simp [hi], rfl, ⟨rfl, h0.symm, rfl, rfl, rfl, rfl⟩⟩
+  exact ⟨rfl, by simp [hi], rfl, ⟨rfl, h0.symm, rfl, rfl, rfl, rfl, EnvExt.of_eq rfl rfl rfl rfl rfl rfl rfl rfl rfl rfl⟩⟩
 
 theorem elseStartOp_ok {l : String} {r : List String} {s s' : St} {u : Unit} (h0 : s.funcs = []) (hi : s.ifs = l :: r)
     (h : elseStartOp s = .ok (u, s')) :
     s'.globalCode = .elseOpen :: .cgoto l :: s.globalCode ∧ s'.ifs = s.ifs ∧ s'.ifCounter = s.ifCounter ∧ Rest s s' := by
   simp [elseStartOp, currentIf, hi, bind, addLine, h0] at h
   rw [← h]
-  exact ⟨rfl, by simp [hi], rfl, ⟨rfl, h0.symm, rfl, rfl, rfl, rfl⟩⟩
+  exact ⟨rfl, by simp [hi], rfl, ⟨rfl, h0.symm, rfl, rfl, rfl, rfl, EnvExt.of_eq rfl rfl rfl rfl rfl rfl rfl rfl rfl rfl⟩⟩
 
 theorem ifEndOp_ok {l : String} {r : List String} {s s' : St} {u : Unit} (h0 : s.funcs = []) (hi : s.ifs = l :: r)
     (h : ifEndOp s = .ok (u, s')) :
     s'.globalCode = .clabel l :: .close :: .cgoto l :: s.globalCode ∧ s'.ifs = r ∧ s'.ifCounter = s.ifCounter ∧ Rest s s' := by
   simp [ifEndOp, currentIf, hi, bind, addLine, h0, Tr.modify] at h
   rw [← h]
-  exact ⟨rfl, by simp [hi], rfl, ⟨rfl, h0.symm, rfl, rfl, rfl, rfl⟩⟩
+  exact ⟨rfl, by simp [hi], rfl, ⟨rfl, h0.symm, rfl, rfl, rfl, rfl, EnvExt.of_eq rfl rfl rfl rfl rfl rfl rfl rfl rfl rfl⟩⟩
 
 theorem nop_ok {s s' : St} {u : Unit} (h0 : s.funcs = []) (h : addLine (.raw "rem No operation") s = .ok (u, s')) :
     Adv s s' [.raw "rem No operation"] 0 := by
   simp [addLine, h0] at h
   rw [← h]
-  exact ⟨rfl, rfl, h0.symm, rfl, rfl, rfl, rfl, rfl, rfl, by simp [plainB]⟩
+  exact ⟨rfl, rfl, h0.symm, rfl, rfl, rfl, rfl, rfl, rfl, by simp [plainB], EnvExt.of_eq rfl rfl rfl rfl rfl rfl rfl rfl rfl rfl⟩
 
 end Tsh.SemB
 
@@ -574,7 +576,8 @@ theorem stmtT_sem (ctx : LCtx) (st : Stmt) (hf : Src.fragStmt st = true) (hn : n
     have f3 : s3.forCounter = s.forCounter := by rw [r3.fcnt, f2]
     refine ⟨(newc.reverse ++ newe.reverse).map BCmd.simple ++ [BCmd.chain (ifLabel s2.ifCounter) tc bc tree et],
       nc + ne + nb + nt + nl, ?_, ?_, ?_⟩
-    · refine ⟨?_, ?_, ?_, ?_, ?_, ?_, ?_, ?_, ?_⟩
+    · refine ⟨?_, ?_, ?_, ?_, ?_, ?_, ?_, ?_, ?_,
+        ad1.env.trans (ad2.env.trans (r3.env.trans (adb.env.trans (adt.env.trans (adl.env.trans r7.env)))))⟩
       · rw [c7, adl.code, adt.code, adb.code, c3, ad2.code, ad1.code]
         simp [flats_append, flats_simples, flats_simples_reverse, flats, flat, List.reverse_append]
       · rw [r7.cnt, adl.cnt, adt.cnt, adb.cnt, r3.cnt, ad2.cnt, ad1.cnt]; omega
@@ -718,7 +721,7 @@ theorem elseT_sem (ctx : LCtx) (els : List Stmt) (hf : Src.fragStmts els = true)
     obtain ⟨cs, n, ad, wfc, sim⟩ := hseq
     refine ⟨some cs, n, ?_, by simpa [wfElse] using wfc, ?_⟩
     · rw [e4]
-      refine ⟨?_, ?_, ?_, ?_, ?_, ?_, ?_, ?_, ?_⟩
+      refine ⟨?_, ?_, ?_, ?_, ?_, ?_, ?_, ?_, ?_, r1.env.trans ad.env⟩
       · rw [ad.code, c1]; simp [flatElse, List.reverse_append]
       · rw [ad.cnt, r1.cnt]
       · rw [ad.funcs, r1.funcs]
@@ -773,7 +776,8 @@ theorem elifsT_sem (ctx : LCtx) (elifs : List (Expr × List Stmt)) (hf : Src.fra
       have hr := elifsT_sem ctx rest hf.2 hn.2 cs s3 s' l r h03 i3 (by simpa using hlen) h4
       obtain ⟨tree, nt, adt, wft, simt⟩ := hr
       refine ⟨(t, bc) :: tree, nb + nt, ?_, by simp [wfElifs, wfb, wft], ?_⟩
-      · refine ⟨?_, ?_, ?_, ?_, ?_, ?_, ?_, ?_, ?_⟩
+      · refine ⟨?_, ?_, ?_, ?_, ?_, ?_, ?_, ?_, ?_,
+          r1.env.trans (adb.env.trans (by have := adt.env; rw [e3] at this; exact this))⟩
         · rw [adt.code, e3, adb.code, c1]; simp [flatElifs, List.reverse_append]
         · rw [adt.cnt, e3, adb.cnt, r1.cnt]; omega
         · rw [adt.funcs, e3, adb.funcs, r1.funcs]
